@@ -140,6 +140,9 @@ def cases(tier, seed):
                         "cost": 4 if name in ("PCACD", "KdqTreeStreaming", "LinearFourRates") else 1})
     for i in range(max(6, n // 3)):
         out.append({"id": "unused/MD3/%d" % i, "kind": "md3", "det": "MD3", "seed": [seed, 1600, i], "cost": 1})
+    # fresh interpreters: which encoding of the classes a process happens to see first must not matter (process-wide memos)
+    for i in range(6 if tier == "quick" else 24):
+        out.append({"id": "fresh/%d" % i, "kind": "fresh", "det": "process", "order": i, "seed": [seed, 16000, i], "cost": 6})
     return out
 
 
@@ -190,7 +193,7 @@ def run_md3(case, ctx):
 
 def targets(tier):
     k = 1 if tier == "quick" else 10
-    t = {"encoded_runs_compared": 1500 * k, "unused_argument_runs_compared": 110 * k, "steps_compared": 200000 * k}
+    t = {"fresh_process_scenarios": 4 * k, "encoded_runs_compared": 1500 * k, "unused_argument_runs_compared": 110 * k, "steps_compared": 200000 * k}
     for name in ERR + ("LinearFourRates",):
         t["drift_histories:" + name] = 8 * k
     return t
@@ -225,6 +228,31 @@ def run_case(case, ctx):
     name = case["det"]
     if case["kind"] == "md3":
         return run_md3(case, ctx)
+    if case["kind"] == "fresh":
+        import json as _json
+        import os as _os
+        import subprocess as _sp
+        import sys as _sys
+
+        script = _os.path.join(_os.path.dirname(_os.path.dirname(_os.path.abspath(__file__))), "scripts", "fresh_process_encodings.py")
+        try:
+            r = _sp.run([_sys.executable, script, str(case["order"]), str(case["seed"][0])], capture_output=True, text=True, timeout=300)
+            res = _json.loads(r.stdout.strip().splitlines()[-1])
+        except Exception as e:  # noqa
+            ctx.mark_inconclusive("fresh-process scenario did not produce a result: %s" % e)
+            return
+        ctx.count("fresh_process_scenarios")
+        ctx.count("steps_compared", res.get("steps", 0))
+        if not res["ok"]:
+            if res.get("crash") is False:
+                ctx.mark_inconclusive("fresh-process scenario failed outside menelaus: " + res["msg"])
+                return
+            ctx.violation("C16/process_wide_encoding_memory", res["msg"], order=case["order"])
+            return
+        ctx.nontrivial = True
+        ctx.sample = {"kind": "fresh interpreter: a detector sees one encoding first, others are run afterwards", "order": case["order"]}
+        ctx.digest = "fresh-%d" % case["order"]
+        return
     rng = gen.rng_for(case["seed"], name, case["kind"])
     params = zoo.draw_params(name, rng)
     key = case.get("seed_key", case["id"])
